@@ -183,7 +183,7 @@ class Rig:
     def snapshot(self, detail: bool = False):
         places: dict[str, list] = {}
 
-        def put(id_, place, queue=None, extra=None):
+        def put(id_, place, queue=None, extra=None):  # detail: (place, queue, priority)
             places.setdefault(id_, []).append((place, queue, extra) if detail else place)
 
         if self.kind == "mem":
@@ -191,14 +191,14 @@ class Rig:
             for b in brokers.values():
                 for qn, q in b.queues.items():
                     for m in list(q.simple._queue):
-                        put(m.key.id_, "waiting", qn, m)
+                        put(m.key.id_, "waiting", qn, m.key.priority)
                     for t, ms in q.delayed.items():
                         for m in ms:
-                            put(m.key.id_, "delayed", qn, m)
+                            put(m.key.id_, "delayed", qn, m.key.priority)
                     for m in q.dead:
-                        put(m.key.id_, "dead", qn, m)
+                        put(m.key.id_, "dead", qn, m.key.priority)
                     for m in q.processing:
-                        put(m.key.id_, "held", qn, m)
+                        put(m.key.id_, "held", qn, m.key.priority)
         elif self.kind == "redis":
             srv = self.server
             for k in list(srv.d):
@@ -213,10 +213,10 @@ class Rig:
                     members = list(v) if isinstance(v, list) else list(v.keys())
                     for mname in members:
                         id_ = mname.decode().split(":")[-1]
-                        put(id_, place, qn, v.get(mname) if isinstance(v, dict) else None)
+                        put(id_, place, qn, int(parts[2]) if parts[2].isdigit() else None)
                 elif ks == "processing":
                     for mname, score in v.items():
-                        put(mname.decode().split(":")[-1], "held", None, score)
+                        put(mname.decode().split(":")[-1], "held", None, None)
         else:
             srv = self.server
             for qn, q in srv.q.items():
@@ -226,11 +226,11 @@ class Rig:
                 elif qn.endswith(":dead"):
                     base, place = qn[: -len(":dead")], "dead"
                 for m in q.msgs:
-                    put(m.props.message_id, place, base, m)
+                    put(m.props.message_id, place, base, m.props.priority)
             for c in srv.conns:
                 for ch in c.channels.values():
                     for dtag, (qn, m, ctag) in ch.unacked.items():
-                        put(m.props.message_id, "held", qn, m)
+                        put(m.props.message_id, "held", qn, m.props.priority)
         return {k: sorted(v, key=str) for k, v in places.items()}
 
     def stored(self, id_: str):
